@@ -666,7 +666,13 @@ fn bfs(cfg: &Config, depth: usize, shard: Shard, rep: &mut Report, wall_cap_s: f
                 for (sig, msg) in bad {
                     rep.violation(format!("history:{}", sig), format!("{} after {} steps: {}", cfg.label(), h.len(), msg), case_json(cfg, &h));
                 }
-                let key = canon(&live, cfg);
+                let mut key = canon(&live, cfg);
+                if cfg.front == FrontKind::Stack {
+                    // the stacked Cache does not expose its writer's in-memory load estimates, which decide
+                    // where new keys go: without them in the key, merging would not be sound, so every
+                    // history of the stacked front-end is its own state (plain depth-bounded enumeration)
+                    key.push_str(&format!("|{:?}", h));
+                }
                 let kh = world::fnv(format!("{}|{}", cfg.label(), key).as_bytes());
                 if seen.insert(kh) {
                     rep.states += 1;
@@ -711,8 +717,9 @@ pub fn configs(tier: Tier) -> Vec<(Config, usize)> {
     for front in fronts {
         for cap in [CapMode::Tight, CapMode::Roomy] {
             if q {
-                v.push((Config { front, cap, handles: 1, nkeys: 3 }, 4));
-                v.push((Config { front, cap, handles: 2, nkeys: 2 }, 3));
+                let stack = front == FrontKind::Stack;
+                v.push((Config { front, cap, handles: 1, nkeys: if stack { 2 } else { 3 } }, if stack { 3 } else { 4 }));
+                v.push((Config { front, cap, handles: 2, nkeys: 2 }, if stack { 2 } else { 3 }));
             } else {
                 v.push((Config { front, cap, handles: 1, nkeys: 4 }, 5));
                 v.push((Config { front, cap, handles: 2, nkeys: 3 }, 4));
